@@ -138,6 +138,20 @@ def _to_dict_classes(ctx, mod, t: str, shape: str) -> Tuple[Set[str], int]:
         assume[CALL(N("isinstance"), VALUE, N("timedelta"))] = False
     paths = interp_for(mod, bindings=b, assume=assume, inline=_small_helpers(mod, fn, ENC_CLASSES), fork_ifexp=True).run(fn)
     ctx.count(len(paths))
+    # the class a message-typed field is annotated with may be asked through a constant table (`TABLE.get(cls)`): the paths
+    # are then enumerated per class - datetime, timedelta, an ordinary message class
+    from ..src import SymName
+    looked_up = {a_ for p_ in paths for src_ in (list(p_.valuation) + [e_.data for e_ in p_.events if e_.kind == "call"]) for t_ in walk(src_)
+                 if t_[0] == "call" and t_[1][0] == "a" and t_[1][2] == "get" and t_[1][1][0] == "c" and isinstance(t_[1][1][1], dict) and t_[2]
+                 for a_ in [t_[2][0]] if a_[0] == "sub" and "cls_by_field" in show(a_[1])}
+    if len(looked_up) == 1:
+        T_ = next(iter(looked_up))
+        paths = []
+        for cname in ("datetime", "timedelta", "$OtherMessage"):
+            b2 = dict(b)
+            b2[T_] = SymName(cname)
+            paths += interp_for(mod, bindings=b2, assume=assume, inline=_small_helpers(mod, fn, ENC_CLASSES), fork_ifexp=True).run(fn)
+        ctx.count(len(paths))
     classes: Set[str] = set()
     n = 0
     for p in paths:
